@@ -93,6 +93,7 @@ func init() {
 	ufAlphabet["b64e_std"] = b64std
 	ufAlphabet["b64e_url"] = b64url
 	ufAlphabet["ideal_hash"] = "0123456789abcdef"
+	ufAlphabet["fmtx"] = "0123456789abcdef" // %x of a byte string: two lower-case hex digits per byte
 	RegisterUF("ideal_hash", SStr, SStr)
 	RegisterUF("sha512", SStr, SStr)
 	RegisterUF("b64e_std", SStr, SStr)
@@ -129,6 +130,8 @@ func init() {
 			out = append(out, mk("=", SBool, App("b64d_"+k, SStr, n), n.Args[0]))
 			// padded length: 4 * ceil(len/3)
 			out = append(out, mk("=", SBool, mkInt("str.len", nil, nil, n), Mul(IntC(4), DivE(Add(StrLen(n.Args[0]), IntC(2)), IntC(3)))))
+		case "fmtx":
+			out = append(out, mk("=", SBool, mkInt("str.len", nil, nil, n), Mul(IntC(2), StrLen(n.Args[0]))))
 		case "qescape":
 			out = append(out, mk("=", SBool, App("qunescape", SStr, n), n.Args[0]))
 		case "rfc3339":
